@@ -159,7 +159,7 @@ def run(tier, seed):
         rep.violation(f"C09/{key}/guard", f"{key}: {bad}", dict(info, unchecked="containment of the model interval in the published guard; no rejected valid message found by the targeted search"), no_input=True)
     attained = sum(1 for c, lo, hi, glo, ghi in checked if extremes.get(c["key"], [None])[0] == lo)
     rep.coverage = {
-        "obligations": po["obligations"] + n_obl + len(want), "discharged": po["discharged"] + n_ok + sum(1 for k, v in want.items() if lim.get(k) == v),
+        "obligations": po["obligations"] + n_obl + len(want), "discharged": po["discharged"] + n_ok + sum(1 for k, v in want.items() if lim.get(k) is not None and (lim.get(k) >= v if k == "STRING_LARGEST_POSSIBLE" else lim.get(k) == v)),
         "checker_cmd": "cd /verif/lean && lake build WowVerif.Thm.C09; ./check C09",
         "trusted_base": TRUSTED_BASE_COMMON + ["regex extraction of the first size guard of every generated read_inner", "tools/wowm.py, tools/corpus.py",
                                                "the frame limits (cmsg 10240, 2-byte size 65535, Wrath 0xFFFFFF) and string limits are specification parameters re-read from the generator source"],
